@@ -27,7 +27,9 @@ func runC03(c *Ctx) {
 	c.Rule("C03.O4", "E4", "every effect (kernel I/O, queue/job mutation, timer creation, epoll_ctl) of the listed operations is dominated by the !closed edge; the closed edge has no effect and returns the closed indication", 10)
 	c.Rule("C03.O5", "E4", "teardown removes the table entry before close(fd); addConn notifies open before the table insert and EPOLL_CTL_ADD", 2)
 	c.Rule("C03.O6", "E5", "closeErr is written only by teardown and by the nil-guarded UDP read path", 1)
+	c.Rule("C03.O8", "E4", "DialAsyncTimeout keeps the descriptor as a pending dial only for connect() == nil or EINPROGRESS: every other errno closes the descriptor and is returned", 1)
 	c.Rule("C03.O7", "E4", "onConnected(c, nil) is dominated by evidence that the connect succeeded; teardown reports a still-pending dial callback", 2)
+	c03DialClassify(c)
 
 	core := c.Core()
 	if core.Teardown == nil || core.DeleteConn == nil {
@@ -598,4 +600,64 @@ func (c *Ctx) epollConst(name string) int64 {
 		}
 	}
 	return 0
+}
+
+// c03DialClassify: O8.
+func c03DialClassify(c *Ctx) {
+	fn := c.Fn("C03.O8", "(*nbio.Engine).DialAsyncTimeout")
+	if fn == nil {
+		return
+	}
+	fi := c.P.Info(fn)
+	key := fnKey(c.P, fn, "connect error classification")
+	var connectErr ssa.Value
+	for _, cs := range c.P.CallsNamed(fn, "syscall.Connect") {
+		connectErr = cs.Value()
+	}
+	if connectErr == nil {
+		c.Unres("C03.O8", key, "syscall.Connect not found")
+		return
+	}
+	var reg ssa.Instruction
+	for _, cs := range c.P.Calls(fn, func(name string, _ ir.CallSite) bool { return name == "(*nbio.Engine).addDialer" }) {
+		reg = cs.In
+	}
+	if reg == nil {
+		c.Unres("C03.O8", key, "registration not found")
+		return
+	}
+	bad := ""
+	n := 0
+	for _, i := range fi.Ifs() {
+		for k := 0; k < 2; k++ {
+			e, target, is, ok := c.P.ErrorsIsTest(i.Cond, k == 0)
+			if !ok || !is || ir.Resolve(e) != ir.Resolve(connectErr) {
+				continue
+			}
+			n++
+			vis, _ := fi.ReachFromEdge(i, k, nil)
+			if vis[reg] && target != "EINPROGRESS" {
+				bad = "a connect() that failed with " + target + " is kept as a dial in progress (" + c.Pos(i) + "): no connection attempt is pending for that errno, and the first writable event reports success for a connection that was never made"
+			}
+		}
+	}
+	// the failing edge: err != nil and not in progress must not reach the registration
+	if n == 0 && bad == "" {
+		bad = "no classification of connect's error found"
+	}
+	if bad == "" {
+		for _, i := range fi.Ifs() {
+			for k := 0; k < 2; k++ {
+				e, target, is, ok := c.P.ErrorsIsTest(i.Cond, k == 0)
+				if !ok || is || target != "EINPROGRESS" || ir.Resolve(e) != ir.Resolve(connectErr) {
+					continue
+				}
+				vis, _ := fi.ReachFromEdge(i, k, nil)
+				if vis[reg] {
+					bad = "a connect() error other than EINPROGRESS reaches the registration (" + c.Pos(i) + ")"
+				}
+			}
+		}
+	}
+	c.Cond(bad == "", "C03.O8", key, c.FnPos(fn), fmt.Sprintf("%d errno test(s): only EINPROGRESS continues", n), bad)
 }
